@@ -186,9 +186,9 @@ def check_reuse(case, ctx):
 
 
 def subchecks():
-    return [HypSub("reported_any", alg_cases, check, quick=2500, thorough=60000),
-            HypSub("reported_self_scored", self_scored_cases, check, quick=2500, thorough=60000),
-            HypSub("accepted_families_scaled", restricted_cases, check, 2500, 40000),
+    return [HypSub("reported_any", alg_cases, check, quick=6000, thorough=100000),
+            HypSub("reported_self_scored", self_scored_cases, check, quick=5000, thorough=100000),
+            HypSub("accepted_families_scaled", restricted_cases, check, 4000, 60000),
             HypSub("reported_large", large_alg_cases, check, 300, 4000),
-            HypSub("instance_reuse", reuse_cases, check_reuse, 2000, 30000),
+            HypSub("instance_reuse", reuse_cases, check_reuse, 4000, 50000),
             HypSub("zero_objective", zero_objective_cases, check_zero, quick=600, thorough=8000)]
